@@ -57,6 +57,10 @@ class ChoiceBudgetExceeded(BaseException):
 FAIR_AFTER = 6  # identical consecutive biased outcomes before one uniform draw is interposed
 
 
+_OrigRandom = _random.Random
+_OrigSystemRandom = _random.SystemRandom
+
+
 class SimRandom(_random.Random):
     """A ``random.Random`` whose high-level outcomes are biased and recorded.
 
@@ -74,7 +78,9 @@ class SimRandom(_random.Random):
         feed: Optional[List[list]] = None,
     ) -> None:
         super().__init__(seed)
-        self._u = _random.Random(seed ^ 0x5DEECE66D)  # internal uniform source, never biased
+        self._u = _OrigRandom(seed ^ 0x5DEECE66D)  # internal uniform source, never biased
+        self._p = _OrigRandom(seed ^ 0x2545F4914F6CDD1D)  # seeds handed to private generators (see install)
+        self.private_generators = 0
         self.profile = profile or UNIFORM_PROFILE
         self.feed = feed
         self.log: List[list] = []
@@ -86,6 +92,12 @@ class SimRandom(_random.Random):
         self.cap: Optional[int] = None
         self._last: Any = None
         self._same = 0
+
+    def private_seed(self) -> int:
+        self.private_generators += 1
+        # (a guided search cannot enumerate what a private generator decides)
+        self.unsupported = getattr(self, "unsupported", 0) + 1
+        return self._p.getrandbits(64)
 
     def _fair(self, key: Any) -> bool:
         """True when the biased answer *key* may be given once more."""
@@ -306,6 +318,17 @@ class SteerRandom(SimRandom):
 
 _PATCHED: Dict[str, Any] = {}
 _CAPTURED: List[Any] = []
+_CURRENT: Optional["SimRandom"] = None
+class _PrivateRandom(_OrigRandom):
+    """What ``random.Random()`` / ``random.SystemRandom()`` give while a simulated generator is
+    installed: a generator of its own, seeded from the simulated one when no seed is given, so
+    code that keeps a private generator stays a function of the run's seed (its draws are
+    neither biased nor recorded)."""
+
+    def seed(self, a: Any = None, version: int = 2) -> None:
+        if a is None and _CURRENT is not None:
+            a = _CURRENT.private_seed()
+        super().seed(a, version)
 
 
 def install(sim: SimRandom) -> None:
@@ -316,8 +339,12 @@ def install(sim: SimRandom) -> None:
             attr = getattr(_random, name)
             if getattr(attr, "__self__", None) is inst and hasattr(sim, name):
                 _PATCHED[name] = attr
+    global _CURRENT
+    _CURRENT = sim
     for name in _PATCHED:
         setattr(_random, name, getattr(sim, name))
+    _random.Random = _PrivateRandom  # type: ignore[misc]
+    _random.SystemRandom = _PrivateRandom  # type: ignore[misc,assignment]
     # library modules that captured the functions themselves (``from random import shuffle``)
     # are routed to *sim* as well: the seam is "the stdlib generator", however it is spelled
     del _CAPTURED[:]
@@ -330,12 +357,19 @@ def install(sim: SimRandom) -> None:
             if k is not None and val is _PATCHED[k]:
                 _CAPTURED.append((mod, gname, val))
                 setattr(mod, gname, getattr(sim, k))
+            elif val is _OrigRandom or val is _OrigSystemRandom:
+                _CAPTURED.append((mod, gname, val))
+                setattr(mod, gname, _PrivateRandom)
     # anything that captured a bound method of the hidden instance at import
     # time stays deterministic (loses bias control, not replay)
     inst.seed(sim.getstate()[1][0])
 
 
 def uninstall() -> None:
+    global _CURRENT
+    _CURRENT = None
+    _random.Random = _OrigRandom  # type: ignore[misc]
+    _random.SystemRandom = _OrigSystemRandom  # type: ignore[misc]
     for name, attr in _PATCHED.items():
         setattr(_random, name, attr)
     for mod, gname, val in _CAPTURED:
